@@ -109,3 +109,84 @@ func VerifC02_ForwardingHint() {
 	}
 	verifObserve("sends", len(log))
 }
+
+// Best-route and multicast over a FIB entry with three or four next hops of symbolic cost: the cheapest next hop may
+// be unusable (it is the point-to-point arrival face, or its face no longer exists), so the choice has to fall on
+// the cheapest USABLE one; multicast reaches every usable next hop exactly once.
+func VerifC02_NextHopChoice() {
+	cfg := core.DefaultConfig()
+	cfg.Tables.ContentStore.Admit, cfg.Tables.ContentStore.Serve = false, false
+	core.LoadConfig(cfg, "")
+	table.Configure()
+	Configure()
+	table.CreateFIBTable("nametree")
+	mk := func(s string) enc.Name { n, _ := enc.NameFromStr(s); return n }
+	multicast := verifBool("multicast")
+	if multicast {
+		table.FibStrategyTable.SetStrategyEnc(enc.Name{}, mk("/localhost/nfd/strategy/multicast/v=1"))
+	}
+	th := NewThread(0)
+	var log []verifSend
+	nhops := 3 + verifChoice("extra", 2)
+	missing := 0 // a next hop whose face does not exist (0: none)
+	if verifBool("oneFaceGone") {
+		missing = 2 + verifChoice("gone", nhops)
+	}
+	for i := 1; i <= nhops+1; i++ { // face 1 is the consumer side, faces 2.. are next hops
+		if i == missing {
+			continue
+		}
+		f := &verifFace{id: uint64(i), scope: defn.NonLocal, link: defn.PointToPoint, log: &log}
+		dispatch.AddFace(f.id, f)
+	}
+	cost := make([]uint64, nhops+2)
+	for i := 2; i <= nhops+1; i++ {
+		cost[i] = verifRange("cost", 0, 3)
+		table.FibStrategyTable.InsertNextHopEnc(mk("/n"), uint64(i), cost[i])
+	}
+	// the Interest arrives on the consumer face or on one of the next-hop faces
+	in := uint64(1 + verifChoice("inface", nhops+1))
+	verifAssume(int(in) != missing)
+	name := mk("/n/x")
+	nonce := uint32(7)
+	lt := 4 * time.Second
+	i := &spec.Interest{NameV: name, NonceV: &nonce, InterestLifetimeV: &lt}
+	pkt := &defn.Pkt{Name: name, L3: &spec.Packet{Interest: i}, Raw: []byte{0x05, 0x00}, IncomingFaceID: &in}
+	verifNoPanic("C02/choice/interest-no-panic", func() { th.processIncomingInterest(pkt) })
+	usable := func(f int) bool { return f != missing && uint64(f) != in }
+	best := uint64(1 << 62)
+	nusable := 0
+	for f := 2; f <= nhops+1; f++ {
+		if usable(f) {
+			nusable++
+			if cost[f] < best {
+				best = cost[f]
+			}
+		}
+	}
+	for _, s := range log {
+		verifAssert(!s.isData && s.face >= 2 && usable(int(s.face)), "C02/choice/interest-leaves-only-on-usable-next-hops")
+	}
+	if multicast {
+		verifAssert(len(log) == nusable, "C02/choice/multicast-uses-every-usable-next-hop-once")
+		for f := 2; f <= nhops+1; f++ {
+			n := 0
+			for _, s := range log {
+				if int(s.face) == f {
+					n++
+				}
+			}
+			if usable(f) {
+				verifAssert(n == 1, "C02/choice/multicast-uses-every-usable-next-hop-once")
+			}
+		}
+	} else if nusable > 0 {
+		verifAssert(len(log) == 1, "C02/choice/best-route-forwards-on-exactly-one-next-hop")
+		if len(log) == 1 && log[0].face >= 2 && int(log[0].face) <= nhops+1 {
+			verifAssert(cost[log[0].face] == best, "C02/choice/best-route-uses-the-lowest-cost-usable-next-hop")
+		}
+	} else {
+		verifAssert(len(log) == 0, "C02/choice/interest-leaves-only-on-usable-next-hops")
+	}
+	verifObserve("sends", len(log))
+}
